@@ -14,7 +14,6 @@ import Manticore.Lemmas.C15Int
 import Manticore.Lemmas.C15Text
 import Manticore.Lemmas.C15Bits
 import Manticore.Lemmas.Endian
-import Manticore.Props.C15.Consts
 namespace Manticore.C15
 open Manticore
 
